@@ -34,6 +34,11 @@ def main(argv=None):
     from pyvc.contract import CONTRACTS
     from pyvc.replay import evaluate
 
+    known_path = os.path.join(HERE, "known_findings.json")
+    known = []
+    if os.path.exists(known_path):
+        with open(known_path) as f:
+            known = [k for k in json.load(f).get("findings", []) if k.get("property") == args.prop and k.get("status", "open") == "open" and k.get("obligation") == "bounded-check"]
     out = []
     for ref, C in CONTRACTS.items():
         if args.prop not in C.props or C.native_samples is None:
@@ -41,6 +46,7 @@ def main(argv=None):
         t0 = time.time()
         n = 0
         fails = []
+        known_hits = {}
         bound = ""
         try:
             gen = C.native_samples()
@@ -56,12 +62,27 @@ def main(argv=None):
                     n -= 1
                     continue
                 if obs["failed_clauses"]:
+                    hit = None
+                    for k in known:
+                        if k.get("contract") != ref:
+                            continue
+                        try:
+                            ok = bool(eval(k["excuse"], dict(sample)))  # pylint: disable=eval-used
+                        except Exception:  # pylint: disable=broad-except
+                            ok = False
+                        if ok and set(obs["failed_clauses"]) <= set(k.get("clauses", obs["failed_clauses"])):
+                            hit = k
+                            break
+                    if hit is not None:
+                        known_hits.setdefault(hit["id"], 0)
+                        known_hits[hit["id"]] += 1
+                        continue
                     fails.append(dict(index=idx, sample={k: repr(v)[:300] for k, v in sample.items()}, observed={k: (str(v)[:400]) for k, v in obs.items()}))
                     if len(fails) >= 3:
                         break
         except Exception as e:  # pylint: disable=broad-except
             fails.append(dict(sample="<generator>", observed=dict(error=f"{type(e).__name__}: {e}", traceback=traceback.format_exc()[-1500:])))
-        out.append(dict(contract=ref, bound=bound or C.note, cases=n, failed=fails, wall=round(time.time() - t0, 2)))
+        out.append(dict(contract=ref, bound=bound or C.note, cases=n, failed=fails, known_hits=known_hits, wall=round(time.time() - t0, 2)))
     print(json.dumps(dict(property=args.prop, bounded=out), default=str))
     return 0
 
